@@ -1,6 +1,6 @@
 """Functions of every kind for the tracer, encoding and stub harnesses."""
 import functools
-from typing import Any, Dict, Iterator, List, Optional, Union
+from typing import Any, Dict, Generator, Iterator, List, Optional, Union
 
 from vfix.classes import A, B, UserId
 
@@ -272,3 +272,16 @@ class LazyAttr:
 
 class WithLazy:
     lazy = LazyAttr()
+
+
+# ---- C13 additions: annotated variadics, string annotation with a None default, generator annotated Generator[...]
+def ann_variadic(a, *args: int, **kwargs: str):
+    return a
+
+
+def ann_string_none_default(w: "A" = None, b=None):  # noqa: RUF013
+    return w
+
+
+def ann_gen_source(n: int) -> Generator[int, None, None]:
+    yield n
